@@ -10,7 +10,7 @@ CONSTANTS
   MaxHosts = 2
   MaxRoutes = 2
   MaxDef = 1
-  NHostVals = 4
+  NHostVals = 5
   NPaths = 4
   NQueries = 1
   Others = {0}
@@ -18,5 +18,5 @@ CONSTANTS
   GenHostSeqs <- GenHostSeqsQuick
 INIT Init
 NEXT Next
-INVARIANTS AlgoCorrect Bounded Independence
+INVARIANTS AlgoCorrect Bounded
 CHECK_DEADLOCK FALSE
